@@ -10,6 +10,7 @@
 //	                           endpoints; H = log|log|…, log = type;blockN;tx;logIndex;v1;v2;… (ABI values in ABI order);
 //	                           S = stream/stream/…, one per endpoint, items <logno> or <logno>r (removed re-emission);
 //	                           drop = - or e@pos (endpoint e loses its connection after pos items)
+//	ent <log> <removed>        one table entry alone (hook) on a websocket endpoint: the LogCommon it builds
 package c18
 
 import (
@@ -25,8 +26,11 @@ import (
 	"time"
 
 	"github.com/DOSNetwork/core/onchain"
+	"github.com/DOSNetwork/core/onchain/commitreveal"
+	"github.com/DOSNetwork/core/onchain/dosproxy"
 	"github.com/ethereum/go-ethereum/common"
 	"github.com/ethereum/go-ethereum/core/types"
+	"github.com/ethereum/go-ethereum/ethclient"
 
 	"verifharness/internal/chaindouble"
 	"verifharness/internal/h"
@@ -636,6 +640,100 @@ func execSub(w []string) (res h.Result) {
 	return
 }
 
+// ent <log> <removed>: one table entry run directly (hook VerifProxyEntry / VerifCrEntry) on a websocket
+// endpoint: the *LogCommon it puts on its channel must carry the transaction hash, block number, removed
+// flag and raw log of the log that was emitted.
+func execEnt(w []string) (res h.Result) {
+	p := strings.Split(w[1], ";")
+	sp := specOf(h.Atoi(p[0]))
+	if sp == nil {
+		panic("no such event index " + p[0])
+	}
+	var bn uint64
+	fmt.Sscanf(p[1], "%d", &bn)
+	l := &hlog{spec: sp, blockN: bn, tx: int64(h.Atoi(p[2])), index: uint(h.Atoi(p[3])), vals: p[4:]}
+	l.data = pack(sp, l.vals)
+	removed := w[2] == "1"
+	res.Class = "ent-" + sp.name
+	res.Nontrivial = true
+
+	ep := chaindouble.New("ws", big.NewInt(1))
+	defer ep.Close()
+	cl, err := ethclient.Dial(ep.WS())
+	if err != nil {
+		res.Impl, res.Oracle = "dial-failed", "harness-dial-failed: "+err.Error()
+		return
+	}
+	defer cl.Close()
+	st := &chaindouble.Stack{Proxy: common.HexToAddress("0x1111111111111111111111111111111111111111"), CR: common.HexToAddress("0x2222222222222222222222222222222222222222")}
+	ctx, cancel := context.WithCancel(context.Background())
+	defer cancel()
+	var out chan interface{}
+	var errc chan error
+	if sp.cr {
+		c, err := commitreveal.NewCommitreveal(st.CR, cl)
+		if err != nil {
+			panic(err)
+		}
+		f := onchain.VerifCrEntry(sp.idx)
+		if f == nil {
+			res.Impl = "no-entry"
+			return
+		}
+		out, errc = f(ctx, &commitreveal.CommitrevealSession{Contract: c})
+	} else {
+		c, err := dosproxy.NewDosproxy(st.Proxy, cl)
+		if err != nil {
+			panic(err)
+		}
+		f := onchain.VerifProxyEntry(sp.idx)
+		if f == nil {
+			res.Impl = "no-entry"
+			return
+		}
+		out, errc = f(ctx, &dosproxy.DosproxySession{Contract: c})
+	}
+	go func() {
+		for range errc {
+		}
+	}()
+	if !ep.WaitSubs(1) {
+		res.Impl, res.Oracle = "subscribe-failed", "harness-subscribe-failed"
+		return
+	}
+	raw := l.raw(st, removed)
+	ep.Emit(raw)
+	var v interface{}
+	select {
+	case v = <-out:
+	case <-time.After(60 * time.Second):
+		res.Impl, res.Oracle = "timeout", "delivery-stalled: table entry produced nothing"
+		return
+	}
+	lc, ok := v.(*onchain.LogCommon)
+	if !ok {
+		res.Impl = fmt.Sprintf("?%T", v)
+		res.Oracle = "entry-sent-not-a-LogCommon"
+		return
+	}
+	same := "same"
+	if !reflect.DeepEqual(lc.Raw, raw) {
+		same = "differs"
+	}
+	res.Impl = fmt.Sprintf("Tx=%s BlockN=%d Removed=%v Raw=%s", lc.Tx, lc.BlockN, lc.Removed, same)
+	switch {
+	case lc.Tx != raw.TxHash.Hex():
+		res.Oracle = "logcommon-tx-differs: " + lc.Tx + " want " + raw.TxHash.Hex()
+	case lc.BlockN != raw.BlockNumber:
+		res.Oracle = fmt.Sprintf("logcommon-blockn-differs: %d want %d", lc.BlockN, raw.BlockNumber)
+	case lc.Removed != removed:
+		res.Oracle = "logcommon-removed-flag-differs"
+	case same != "same":
+		res.Oracle = "logcommon-raw-differs"
+	}
+	return
+}
+
 func clip(s string) string {
 	if len(s) > 200 {
 		return s[:200] + "…"
@@ -664,6 +762,8 @@ func exec(line string) (res h.Result) {
 		return execMG(w)
 	case "sub":
 		return execSub(w)
+	case "ent":
+		return execEnt(w)
 	}
 	panic("bad case line")
 }
